@@ -280,6 +280,22 @@ CHECKS["C07"] = (
     "DESIGN.md §4 C07",
 )
 
+CHECKS["C12"] = (
+    "E-CH",
+    "CrossHair/z3 symbolic execution of auto_cli on a fixed module of components: solver-chosen component/method, one given-bit per parameter, symbolic set_defaults ints; call log and return value compared with the binding rule",
+    "Bounded symbolic model checking of the real code; the claim is weak by nature: signatures are configurations (three functions with "
+    "positional-or-keyword, keyword-only, Optional-without-default, List and Literal parameters, and a class with two methods) arranged "
+    "in seven layouts (single component, list, nested dict). The solver chooses the component and method, for every parameter whether "
+    "it is given (argv positional/option, or all through --config) and whether set_defaults overrides its default with a symbolic int. "
+    "auto_cli must call exactly the selected callee(s) once, bind every parameter to the given value converted to the declared type, "
+    "else to the set_defaults value, else to the signature default (None for Optional without default); a missing required parameter "
+    "makes the call fail with ArgumentError before any callee runs; constructor and method each receive only their own parameters; "
+    "the return value is the callee's. Path trees exhausted.",
+    "Trusted: CrossHair/z3. Outside: generated signatures beyond the fixed module (programs are not solver variables), the "
+    "components=None module scan, async callees, methods with a config parameter.",
+    "DESIGN.md §4 C12",
+)
+
 NOT_APPLICABLE = {
     "C13": "the resolver's only input is source code on disk (inspect.getsource/ast.parse/import); a symbolic program cannot be "
     "represented for that code and types/defaults are part of the program, so no dimension of the quantifier can be a solver variable",
